@@ -21,44 +21,102 @@ theorem docStart_prefix_opens {x : Str} (h : docStart.isPrefixOf ('#' :: x) = tr
 
 /-! ## bracket comments -/
 
+/-- without a `#]]` further on, neither doccomment rule matches -/
+theorem doc_none_of_findAfter (s : Str) (h : findAfter docEnd (s.drop 4) = none) :
+    docstringLen s = none ∧ moduleDocstringLen s = none := by
+  constructor
+  · simp [docstringLen, h]
+  · unfold moduleDocstringLen
+    split
+    · dsimp only
+      split
+      · have : findAfter docEnd (((s.drop 4).drop (spanLen (fun c => c == ' ' || c == '\t') (s.drop 4))).drop 7) = none := by
+          cases hq : findAfter docEnd (((s.drop 4).drop (spanLen (fun c => c == ' ' || c == '\t') (s.drop 4))).drop 7) with
+          | none => rfl
+          | some v =>
+            exfalso
+            exact findAfter_drop_ne_none _ (findAfter_drop_ne_none 7 (by rw [hq]; simp)) h
+        rw [this]; rfl
+      · rfl
+    · rfl
+
+theorem doc_none_of_not_prefix (s : Str) (h : docStart.isPrefixOf s = false) :
+    docstringLen s = none ∧ moduleDocstringLen s = none := by
+  unfold docstringLen moduleDocstringLen
+  simp [h]
+
 /-- `#[=*[ … ]=*]` is one `Bracket_comment`, provided its terminator first occurs at its end and it does not
-    start with the doccomment opener `#[[[` -/
+    start with the doccomment opener `#[[[` — or no `#]]` occurs anywhere after that opener (K3) -/
 theorem scan_bracketComment (lvl : Nat) (t rest : Str)
     (hf : findAfter (bracketClose lvl) (t ++ bracketClose lvl) = some (t.length + (bracketClose lvl).length))
-    (hk3 : lvl = 0 → t.head? ≠ some '[') :
+    (hk3 : (lvl = 0 → t.head? ≠ some '[') ∨ findAfter docEnd (t ++ (bracketClose lvl ++ rest)) = none) :
     scan ('#' :: (bracketOpen lvl ++ t ++ bracketClose lvl) ++ rest) =
       some (.bracketComment, ('#' :: (bracketOpen lvl ++ t ++ bracketClose lvl)).length) := by
   have hb := bracketLen_text lvl t rest hf
-  have hds : docStart.isPrefixOf ('#' :: (bracketOpen lvl ++ t ++ bracketClose lvl ++ rest)) = false := by
-    rw [bracketText_eq, docStart_isPrefixOf_open]
-    cases lvl with
-    | succ n => rfl
-    | zero =>
-      have := hk3 rfl
-      cases t with
-      | nil => simp [bracketClose]
-      | cons c t =>
-        have hc : c ≠ '[' := by simpa using this
-        simp [hc]
+  have hdoc : docstringLen ('#' :: (bracketOpen lvl ++ t ++ bracketClose lvl ++ rest)) = none ∧
+      moduleDocstringLen ('#' :: (bracketOpen lvl ++ t ++ bracketClose lvl ++ rest)) = none := by
+    rcases hk3 with hk3 | hk3
+    · have hds : docStart.isPrefixOf ('#' :: (bracketOpen lvl ++ t ++ bracketClose lvl ++ rest)) = false := by
+        rw [bracketText_eq, docStart_isPrefixOf_open]
+        cases lvl with
+        | succ n => rfl
+        | zero =>
+          have := hk3 rfl
+          cases t with
+          | nil => simp [bracketClose]
+          | cons c t =>
+            have hc : c ≠ '[' := by simpa using this
+            simp [hc]
+      exact doc_none_of_not_prefix _ hds
+    · by_cases hl : lvl = 0
+      · subst hl
+        apply doc_none_of_findAfter
+        have hd : ('#' :: (bracketOpen 0 ++ t ++ bracketClose 0 ++ rest)).drop 4 =
+            (t ++ (bracketClose 0 ++ rest)).drop 1 := by
+          simp [bracketOpen]
+        rw [hd]
+        cases hq : findAfter docEnd ((t ++ (bracketClose 0 ++ rest)).drop 1) with
+        | none => rfl
+        | some v => exact absurd hk3 (findAfter_drop_ne_none 1 (by rw [hq]; simp))
+      · have hds : docStart.isPrefixOf ('#' :: (bracketOpen lvl ++ t ++ bracketClose lvl ++ rest)) = false := by
+          rw [bracketText_eq, docStart_isPrefixOf_open]
+          cases lvl with
+          | succ n => rfl
+          | zero => exact absurd rfl hl
+        exact doc_none_of_not_prefix _ hds
   have hob : opensBracket (bracketOpen lvl ++ t ++ bracketClose lvl ++ rest) = true := by
     rw [bracketText_eq]; exact opensBracket_open _ _
   have hde : docEnd.isPrefixOf ('#' :: (bracketOpen lvl ++ t ++ bracketClose lvl ++ rest)) = false := by
     rw [bracketText_eq]; simp [docEnd_eq, List.isPrefixOf]
+  have hL4 : 4 ≤ (bracketOpen lvl ++ t ++ bracketClose lvl).length := by rw [bracketText_length]; omega
   simp only [List.cons_append, List.length_cons]
   generalize hL : (bracketOpen lvl ++ t ++ bracketClose lvl).length = L at *
   generalize bracketOpen lvl ++ t ++ bracketClose lvl ++ rest = x at *
-  apply scan_of_unique (sc := 2 * (L + 1))
-  · simp [ruleScore, plainScore, bracketCommentLen, hb]
-  · simp
-  · intro k' hk'
+  have hrules : ∀ k' sc' n', k' ≠ .bracketComment → ruleScore k' ('#' :: x) = some (sc', n') →
+      k' = .doccommentStart ∧ sc' = 8 := by
+    intro k' sc' n' hk' hs
     cases k'
     case bracketComment => exact absurd rfl hk'
-    case moduleDocstring => simp [ruleScore, plainScore, moduleDocstringLen, hds]
-    case docstring => simp [ruleScore, plainScore, docstringLen, hds]
-    case doccommentStart => simp [ruleScore, plainScore, doccommentStartLen, hds]
-    case blockcommentEnd => simp [ruleScore, plainScore, blockcommentEndLen, hde]
-    case lineComment => simp [ruleScore, lineCommentLen, hob]
-    all_goals exact hash_rules x _ (by simp)
+    case moduleDocstring => simp [ruleScore, plainScore, hdoc.2] at hs
+    case docstring => simp [ruleScore, plainScore, hdoc.1] at hs
+    case doccommentStart =>
+      simp only [ruleScore, plainScore, doccommentStartLen, Option.map_eq_some_iff] at hs
+      obtain ⟨m, hm, he⟩ := hs
+      split at hm
+      · cases hm; cases he; exact ⟨rfl, rfl⟩
+      · cases hm
+    case blockcommentEnd => simp [ruleScore, plainScore, blockcommentEndLen, hde] at hs
+    case lineComment => simp [ruleScore, lineCommentLen, hob] at hs
+    all_goals (rw [hash_rules x _ (by simp)] at hs; cases hs)
+  apply scan_of_best (sc := 2 * (L + 1))
+  · simp [ruleScore, plainScore, bracketCommentLen, hb]
+  · simp
+  · intro k' sc' n' hi hs
+    obtain ⟨-, rfl⟩ := hrules k' sc' n' (by intro e; subst e; simp at hi) hs
+    omega
+  · intro k' sc' n' hi hs
+    obtain ⟨rfl, -⟩ := hrules k' sc' n' (by intro e; subst e; simp at hi) hs
+    simp [TokKind.idx] at hi
 
 /-! ## line comments -/
 
@@ -228,6 +286,56 @@ theorem moduleDocstringLen_none (c : Char) (x : Str) (hb : isBlank c = false) (h
   have hd : (docStart ++ c :: x).drop 4 = c :: x := by rw [docStart_append]; rfl
   have hsp : spanLen (fun c => c == ' ' || c == '\t') (c :: x) = 0 := spanLen_cons_false (p := isBlank) x hb
   simp [moduleDocstringLen, hp, hd, hsp, litModule_eq, List.isPrefixOf, Ne.symm hc]
+
+theorem isPrefixOf_append_cases (p x y : Str) (h : p.isPrefixOf (x ++ y) = true) :
+    p.isPrefixOf x = true ∨ ∃ c, y.head? = some c ∧ c ∈ p := by
+  induction p generalizing x with
+  | nil => left; simp
+  | cons a p ih =>
+    cases x with
+    | nil =>
+      right
+      cases y with
+      | nil => simp at h
+      | cons b y =>
+        simp only [List.nil_append, List.isPrefixOf, Bool.and_eq_true, beq_iff_eq] at h
+        exact ⟨b, rfl, by simp [h.1]⟩
+    | cons b x =>
+      simp only [List.cons_append, List.isPrefixOf, Bool.and_eq_true, beq_iff_eq] at h
+      rcases ih x h.2 with h' | ⟨c, hc, hm⟩
+      · left; simp [List.isPrefixOf, h.1, h']
+      · right; exact ⟨c, hc, by simp [hm]⟩
+
+/-- an opening line `#[[[suf` + line ending does not start a module doccomment unless `suf` is blanks followed by
+    `@module` -/
+theorem moduleDocstringLen_none_of_suffix (suf : Str) (e : Char) (x : Str) (he : isEolCh e = true)
+    (hs : (lit "@module").isPrefixOf (suf.dropWhile isBlank) = false) :
+    moduleDocstringLen (docStart ++ (suf ++ e :: x)) = none := by
+  have hp : docStart.isPrefixOf (docStart ++ (suf ++ e :: x)) = true := List.isPrefixOf_iff_prefix.mpr ⟨_, rfl⟩
+  have hd : (docStart ++ (suf ++ e :: x)).drop 4 = suf ++ e :: x := by rw [docStart_append]; rfl
+  have heb : isBlank e = false := by
+    have : e = '\r' ∨ e = '\n' := by simpa [isEolCh] using he
+    rcases this with rfl | rfl <;> decide
+  have hsp : spanLen (fun c => c == ' ' || c == '\t') (suf ++ e :: x) = spanLen isBlank suf := by
+    show spanLen isBlank _ = _
+    apply spanLen_append_stop
+    intro c hc
+    have : e = c := by simpa using hc
+    subst this; exact heb
+  have hdrop : (suf ++ e :: x).drop (spanLen isBlank suf) = suf.dropWhile isBlank ++ e :: x := by
+    rw [List.drop_append_of_le_length (spanLen_le _ _), drop_spanLen]
+  have hnp : (lit "@module").isPrefixOf (suf.dropWhile isBlank ++ e :: x) = false := by
+    cases hq : (lit "@module").isPrefixOf (suf.dropWhile isBlank ++ e :: x) with
+    | false => rfl
+    | true =>
+      rcases isPrefixOf_append_cases _ _ _ hq with h | ⟨c, hc, hm⟩
+      · rw [hs] at h; cases h
+      · have : e = c := by simpa using hc
+        subst this
+        have : e = '\r' ∨ e = '\n' := by simpa [isEolCh] using he
+        rw [litModule_eq] at hm
+        rcases this with rfl | rfl <;> simp at hm
+  simp [moduleDocstringLen, hp, hd, hsp, hdrop, hnp]
 
 /-- `Module_docstring` on `#[[[`, blanks, `@module`, `y` -/
 theorem moduleDocstringLen_module (blanks y : Str) (m : Nat) (hb : blanks.all isBlank = true)
